@@ -584,6 +584,7 @@ impl FormatSpec {
             Some(FormatType::Character) => match (self.sign, self.alternate_form) {
                 (Some(_), _) => Err(FormatSpecError::NotAllowed("Sign")),
                 (_, true) => Err(FormatSpecError::NotAllowed("Alternate form (#)")),
+                (_, _) if self.precision.is_some() => Err(FormatSpecError::PrecisionNotAllowed),
                 (_, _) => match num.to_u32() {
                     Some(n) if n <= 0x10ffff => Ok(std::char::from_u32(n).unwrap().to_string()),
                     Some(_) | None => Err(FormatSpecError::CodeNotInRange),
@@ -609,11 +610,12 @@ impl FormatSpec {
         };
         let sign_prefix = format!("{sign_str}{prefix}");
         let magnitude_str = self.add_magnitude_separators(raw_magnitude_str, &sign_prefix);
-        self.format_sign_and_align(
-            &AsciiStr::new(&magnitude_str),
-            &sign_prefix,
-            FormatAlign::Right,
-        )
+        // the 'c' presentation type can produce a non-ASCII character
+        let magnitude_str = CountedStr {
+            inner: &magnitude_str,
+            char_len: magnitude_str.chars().count(),
+        };
+        self.format_sign_and_align(&magnitude_str, &sign_prefix, FormatAlign::Right)
     }
 
     pub fn format_string<T>(&self, s: &T) -> Result<String, FormatSpecError>
